@@ -227,8 +227,9 @@ def _m2(res, prop, rule):
         from . import tlc as T
         import itertools, json as _json
 
-        for line in itertools.islice(T.read_lines(o["tlc"]["lines_path"]), 3, 5):
-            res.sample(_json.loads(_json.loads(line)))
+        ls = T.read_lines(o["tlc"]["lines_path"])
+        for pos in (len(ls) * 2 // 5, len(ls) * 7 // 10):
+            res.sample(_json.loads(_json.loads(ls[pos])))
     res.assumptions += ["bounded tree size (see configs); node identity only (no user special methods, see C17)",
                         "nodes are built through the public API on fresh objects per vector; live-object histories are covered by the trace checks"]
     return outs
